@@ -292,7 +292,8 @@ def r2q_ref(R):
                   [R[2, 1] - R[1, 2], R[0, 2] - R[2, 0], R[1, 0] - R[0, 1], R[0, 0] + R[1, 1] + R[2, 2]]]) / 3
     w, V = np.linalg.eigh(K, UPLO='L')
     x, y, z, s = V[:, np.argmax(w)]
-    return np.array([s, x, y, z])
+    q = np.array([s, x, y, z])
+    return -q if s < 0 else q      # canonical sign: scalar part >= 0
 
 
 def same_rotation_q(a, b, tol):
